@@ -116,6 +116,29 @@ func (r *Rand) SmallFloat() float64 {
 	}
 }
 
+// notable finite values: where number formatting changes its form (1e21, 1e-7),
+// where float64 stops holding every integer (2^53), extremes, powers of two
+// that matter to integer conversions, values that round up into the next
+// digit position, and the limits of geographic coordinates.
+var notable = []float64{
+	math.MaxFloat64, math.SmallestNonzeroFloat64, 2.2250738585072014e-308,
+	9007199254740992, 9007199254740994, 9007199254740991, 1e15, 1e16, 123456789012345678,
+	1e20, 999999999999999900000, 1e21, 1e22, 1e100, 1e-5, 1e-6, 1e-7, 0.000001234, 1e-100,
+	4294967296, 4294967295, 2147483648, 2147483647, 65536, 65535, 256, 255, 9223372036854775807, 18446744073709551615,
+	0.1, 0.2, 0.30000000000000004, 1.0 / 3, 2.0 / 3, 123456789.12345679,
+	0.5, 1.5, 2.5, 0.05, 0.15, 0.95, 0.995, 0.9995, 9.5, 9.95, 99.5, 99.95, 999.9999999, 0.49999999999999994, 0.9999999999999999,
+	180, 179.99999999, 90, 89.99999999, 360, 59.9999, 60, 1, 10, 100, 1000,
+}
+
+// NotableFloat returns one of the notable finite values with a random sign.
+func (r *Rand) NotableFloat() float64 {
+	v := notable[r.Intn(len(notable))]
+	if r.Intn(2) == 0 {
+		v = -v
+	}
+	return v
+}
+
 // AnyFloatBits returns a float64 drawn from all bit patterns with a bias to
 // special values (NaN payloads, infinities, negative zero, denormals).
 func (r *Rand) AnyFloatBits() float64 {
@@ -134,6 +157,8 @@ func (r *Rand) AnyFloatBits() float64 {
 		return math.Float64frombits(r.Uint64() & 0x000fffffffffffff) // denormal
 	case 6:
 		return math.Float64frombits(0xfff8000000000000 | (r.Uint64() & 0xffff))
+	case 7:
+		return r.NotableFloat()
 	default:
 		return r.SmallFloat()
 	}
